@@ -1,6 +1,7 @@
 package main
 
 import (
+	"bytes"
 	"encoding/binary"
 	"encoding/hex"
 	"fmt"
@@ -153,31 +154,31 @@ func (ImplCodec) Exec(line string) (obs string) {
 		case "ts":
 			n, _ := strconv.ParseUint(tk[2], 10, 32)
 			t := wt.Timestamp(n)
-			return hexOrDash(t.AppendTo(nil))
+			return appendEnc(t.AppendTo)
 		case "dur":
 			n, _ := strconv.ParseInt(tk[2], 10, 32)
 			d := wt.Duration(n)
-			return hexOrDash(d.AppendTo(nil))
+			return appendEnc(d.AppendTo)
 		case "val":
 			v, _ := parseValHex(tk[2])
-			return hexOrDash(v.AppendTo(nil))
+			return appendEnc(v.AppendTo)
 		case "point":
 			ps, err := parsePts(tk[2])
 			if err != nil || len(ps) != 1 {
 				return "bad-op"
 			}
-			return hexOrDash(ps[0].AppendTo(nil))
+			return appendEnc(ps[0].AppendTo)
 		case "points":
 			ps, err := parsePts(tk[2])
 			if err != nil {
 				return "bad-op"
 			}
 			pp := wt.Points(ps)
-			return hexOrDash(pp.AppendTo(nil))
+			return appendEnc(pp.AppendTo)
 		case "series":
 			if tk[2] == "nil" {
 				var ts *wt.TimeSeries
-				return hexOrDash(ts.AppendTo(nil))
+				return appendEnc(ts.AppendTo)
 			}
 			f, _ := strconv.ParseUint(tk[2], 10, 32)
 			u, _ := strconv.ParseUint(tk[3], 10, 32)
@@ -190,7 +191,7 @@ func (ImplCodec) Exec(line string) (obs string) {
 				}
 			}
 			ts := wt.NewTimeSeries(wt.Timestamp(f), wt.Timestamp(u), wt.Duration(st), vals)
-			return hexOrDash(ts.AppendTo(nil))
+			return appendEnc(ts.AppendTo)
 		}
 	case "newheader", "newheaderhex":
 		lay, err := parseLay(tk[1])
@@ -205,7 +206,7 @@ func (ImplCodec) Exec(line string) (obs string) {
 				return errObs(err)
 			}
 			if tk[0] == "newheaderhex" {
-				return "ok " + hexOrDash(h.AppendTo(nil))
+				return "ok " + appendEnc(h.AppendTo)
 			}
 			return "ok " + headerObs(h)
 		}
@@ -247,4 +248,27 @@ func canonCodec(s string) string {
 		return "err"
 	}
 	return s
+}
+
+// appendEnc encodes through AppendTo three ways — onto nil, onto a buffer that already holds
+// a message and has room to spare, and onto one that has no room (or too little) — and
+// answers with the encoding when all three agree and the bytes that were there are still
+// there.  "Concatenated messages decode in sequence" starts with concatenation keeping them.
+func appendEnc(f func([]byte) []byte) string {
+	enc := f(nil)
+	for _, c := range []struct{ n, spare int }{{5, 0}, {12, 3}, {28, 4096}, {1, len(enc)}, {40, len(enc) - 1}} {
+		if c.spare < 0 {
+			c.spare = 0
+		}
+		dst := make([]byte, c.n, c.n+c.spare)
+		for i := range dst {
+			dst[i] = byte(0xA0 + i%23)
+		}
+		keep := append([]byte(nil), dst...)
+		out := f(dst)
+		if len(out) != c.n+len(enc) || !bytes.Equal(out[:c.n], keep) || !bytes.Equal(out[c.n:], enc) {
+			return fmt.Sprintf("append-differs: onto %d bytes with %d to spare gave %s, alone %s", c.n, c.spare, hexOrDash(out), hexOrDash(enc))
+		}
+	}
+	return hexOrDash(enc)
 }
